@@ -65,6 +65,7 @@ class ClassInfo:
         self.methods = {}
         self.nested = {}
         self.class_attrs = {}   # name -> value node (class body assignments)
+        self.class_anns = {}    # name -> annotation node (class body annotated assignments)
         self._bases = None
         self._attr_types = None
         for st in node.body:
@@ -78,6 +79,7 @@ class ClassInfo:
                         self.class_attrs[t.id] = st.value
             elif isinstance(st, ast.AnnAssign) and isinstance(st.target, ast.Name):
                 self.class_attrs[st.target.id] = st.value
+                self.class_anns[st.target.id] = st.annotation
 
     def __repr__(self):
         return '<class %s>' % self.qual
@@ -553,13 +555,17 @@ class Repo:
                 if isinstance(n, ast.Assign):
                     for t in n.targets:
                         if (isinstance(t, ast.Attribute) and isinstance(t.value, ast.Name)
-                                and t.value.id == selfname):
+                                and t.value.id in (selfname, c.name)):
                             table.setdefault(t.attr, []).append((f, n.value, None))
                 elif isinstance(n, ast.AnnAssign):
                     t = n.target
                     if isinstance(t, ast.Attribute) and isinstance(t.value, ast.Name) and t.value.id == selfname:
                         table.setdefault(t.attr, []).append((f, n.value, n.annotation))
         c._attr_defs = table
+        for attr, ann in c.class_anns.items():
+            t = self.ann_type(c.module, ann, c)
+            if t:
+                c._attr_types.setdefault(attr, set()).add(t)
         for attr, defs in table.items():
             ts = set()
             for f, val, ann in defs:
@@ -571,7 +577,7 @@ class Repo:
                 if val is not None:
                     for t in self.expr_types(f, val):
                         ts.add(t)
-            c._attr_types[attr] = ts
+            c._attr_types.setdefault(attr, set()).update(ts)
         return c._attr_types
 
     def attr_types(self, c, attr):
@@ -712,6 +718,7 @@ class Repo:
                             out |= self.expr_types(k.module.body_func, k.class_attrs[e.attr])
                 elif bt[0] == 'class':
                     c = bt[1]
+                    out |= self.attr_types(c, e.attr)
                     for k in c.mro():
                         if e.attr in k.nested:
                             out.add(('class', k.nested[e.attr]))
